@@ -96,35 +96,75 @@ def compare_tables(rep, run, select=lambda cid: True, what=("gen", "states", "ro
                 break
     return n
 
+
+def kernel_obligations(rep, tag, header, inst, per_shard_timeout=None, single_timeout=None):
+    """inst: [(key, [definition lines], boolean expression)]. Evaluates every expression with vm_compute and then proves one lemma per
+    instance stating the observed value; the work is cut into shards compiled by parallel coqc processes. An instance whose evaluation
+    alone exceeds single_timeout is reported in rep.notes['validator_timeouts'] and gets no obligation (it is neither discharged nor failed;
+    the property-level oracles still judge it). Returns {key: bool}."""
+    import concurrent.futures as cf
+    if not inst: return {}
+    if per_shard_timeout is None: per_shard_timeout = 300 if rep.tier == "quick" else 2400
+    if single_timeout is None: single_timeout = 90 if rep.tier == "quick" else 600
+    nsh = max(1, min(NPROC, (len(inst) + 7) // 8))
+    shards = [inst[i::nsh] for i in range(nsh)]
+    def clean(path):
+        for ext in (".v", ".vo", ".vok", ".vos", ".glob"):
+            try: os.remove(path[:-2] + ext)
+            except OSError: pass
+        try: os.remove(os.path.join(os.path.dirname(path), "." + os.path.basename(path)[:-2] + ".aux"))
+        except OSError: pass
+    def run_shard(name, items, timeout):
+        """returns ({key: bool}, ok, output, seconds) for evaluation followed by the lemmas"""
+        defs = [header] + [l for (k, dl, e) in items for l in dl] + [f"Definition o_{k} := {e}." for (k, dl, e) in items]
+        pe = f"{COQ}/Cases_{tag}_{name}_eval.v"
+        open(pe, "w").write("\n".join(defs + ["Definition all_results := [" + "; ".join(f"({k}, o_{k})" for (k, dl, e) in items) + "].", "Eval vm_compute in all_results."]) + "\n")
+        ok, out, dt = coqc_file(os.path.basename(pe), timeout=timeout)
+        res = {k: (v == "true") for k, v in re.findall(r"\(\s*(\d+),\s*(true|false)\)", out)}
+        clean(pe)
+        if not ok or len(res) != len(items): return {}, False, out, dt
+        pl = f"{COQ}/Cases_{tag}_{name}.v"
+        open(pl, "w").write("\n".join(defs + [f"Lemma ob_{k} : o_{k} = {'true' if res[str(k)] else 'false'}. Proof. vm_compute. reflexivity. Qed." for (k, dl, e) in items]) + "\n")
+        ok2, out2, dt2 = coqc_file(os.path.basename(pl), timeout=2 * timeout)
+        keep = pl if name == "0" else None
+        if keep is None: clean(pl)
+        else:
+            for ext in (".vo", ".vok", ".vos", ".glob"):
+                try: os.remove(pl[:-2] + ext)
+                except OSError: pass
+        return (res if ok2 else {}), ok2, out2, dt + dt2
+    results = {}; timeouts = []; total = 0.0
+    with cf.ThreadPoolExecutor(NPROC) as ex:
+        outs = list(ex.map(lambda a: run_shard(str(a[0]), a[1], per_shard_timeout), enumerate(shards)))
+    retry = []
+    for (res, ok, out, dt), items in zip(outs, shards):
+        total += dt
+        if ok: results.update(res)
+        elif "TIMEOUT" in out or "timeout" in out.lower() or not out.strip(): retry += items
+        else:
+            rep.oblige(f"instances-evaluate ({tag})", False, out[-500:]); return {}
+    if retry:
+        with cf.ThreadPoolExecutor(NPROC) as ex:
+            outs = list(ex.map(lambda it: run_shard("r" + str(it[0]), [it], single_timeout), retry))
+        for (res, ok, out, dt), it in zip(outs, retry):
+            total += dt
+            if ok: results.update(res)
+            else: timeouts.append(str(it[0]))
+    if timeouts: rep.notes.setdefault("validator_timeouts", []).extend(f"{tag}:{k}" for k in timeouts)
+    rep.notes.setdefault("obligation_files", []).append(f"{COQ}/Cases_{tag}_0.v (+ {len(shards) - 1} further shards, removed after checking)")
+    rep.notes["obligation_seconds"] = round(rep.notes.get("obligation_seconds", 0) + total, 1)
+    return {str(k): v for k, v in results.items()}
+
 def obligations_validate(rep, run, cids, name="validate", extra_import=None, prelude="", suffix="", closure_order=False):
     """kernel-checked: validate g sts tbl = true on the dump of the REAL code, one lemma per instance"""
     if not cids: return {}
-    # pass 1: evaluate all instances at once to learn which hold
-    lines = [coqgen.HEADER + (f"Require Import {extra_import}.\n" if extra_import else "") + prelude]
+    header = coqgen.HEADER + (f"Require Import {extra_import}.\n" if extra_import else "") + prelude
+    inst = []
     for k in cids:
-        lines.append(f"Definition g{k} := {coqgen.grammar_term(run.gis[k])}.\nDefinition s{k} := {coqgen.states_term(coqgen.closure_order(run.gis[k], run.real[k]['states']) if closure_order else run.real[k]['states'])}.\nDefinition t{k} := {coqgen.table_term(run.real[k]['rows'])}.")
-    lines.append("Definition all_results := [" + "; ".join(f"({k}, {name} g{k} s{k} t{k})" for k in cids) + "].")
-    lines.append("Eval vm_compute in all_results.")
-    path = f"{COQ}/Cases_{rep.pid}{suffix}_eval.v"
-    open(path, "w").write("\n".join(lines) + "\n")
-    ok, out, dt = coqc_file(os.path.basename(path), timeout=2400)
-    res = {k: (v == "true") for k, v in re.findall(r"\(\s*(\d+),\s*(true|false)\)", out)}
-    if not ok or len(res) != len(cids):
-        rep.oblige(f"instances-evaluate ({name})", False, out[-500:]); return {}
-    # pass 2: one lemma per instance, stating what was observed; the kernel re-checks each
-    lem = lines[:-2]
-    for k in cids:
-        lem.append(f"Lemma ob_{k} : {name} g{k} s{k} t{k} = {'true' if res[k] else 'false'}. Proof. vm_compute. reflexivity. Qed.")
-    path2 = f"{COQ}/Cases_{rep.pid}{suffix}.v"
-    open(path2, "w").write("\n".join(lem) + "\n")
-    ok2, out2, dt2 = coqc_file(os.path.basename(path2), timeout=2400)
-    rep.notes.setdefault("obligation_files", []).append(path2); rep.notes["obligation_seconds"] = round(rep.notes.get("obligation_seconds", 0) + dt + dt2, 1)
-    if not ok2: rep.oblige("instance-lemmas-compile", False, out2[-500:])
-    for f in (path, path2):
-        for ext in (".vo", ".vok", ".vos", ".glob"):
-            try: os.remove(f[:-2] + ext)
-            except OSError: pass
-    return res
+        sts = coqgen.closure_order(run.gis[k], run.real[k]['states']) if closure_order else run.real[k]['states']
+        inst.append((k, [f"Definition g{k} := {coqgen.grammar_term(run.gis[k])}.", f"Definition s{k} := {coqgen.states_term(sts)}.", f"Definition t{k} := {coqgen.table_term(run.real[k]['rows'])}."],
+                     f"{name} g{k} s{k} t{k}"))
+    return kernel_obligations(rep, rep.pid + suffix, header, inst)
 
 def check_C01(rep):
     common_stage(rep)
@@ -741,28 +781,14 @@ def h2_stage(rep):
 def obligations_dfa(rep, run, cids):
     """kernel-checked lexer_ok on the automaton dumped from the REAL builder, one lemma per instance"""
     if not cids: return {}
-    defs = [coqgen.H2_HEADER]
+    inst = []
     for k in cids:
         c = run.cases[k]
-        defs.append(f"Definition sm{k} : dfa := {coqgen.dfa_term(run.real[k]['states'])}.")
-        if c["pattern"] is not None: defs.append(f"Definition o{k} := ob_pat {coqgen.nat_list(c['pattern'])} sm{k}.")
-        else: defs.append(f"Definition o{k} := ob_terms [" + "; ".join(f"({kk}, {coqgen.nat_list(s)})" for kk, s in c["terms"]) + f"] sm{k}.")
-    ev = defs + ["Definition all_results := [" + "; ".join(f"({k}, o{k})" for k in cids) + "].", "Eval vm_compute in all_results."]
-    path = f"{COQ}/Cases_{rep.pid}_eval.v"; open(path, "w").write("\n".join(ev) + "\n")
-    ok, out, dt = coqc_file(os.path.basename(path), timeout=3000)
-    res = {k: (v == "true") for k, v in re.findall(r"\(\s*(\d+),\s*(true|false)\)", out)}
-    if not ok or len(res) != len(cids):
-        rep.oblige("instances-evaluate (lexer_ok)", False, out[-500:]); return {}
-    lem = defs + [f"Lemma ob_{k} : o{k} = {'true' if res[k] else 'false'}. Proof. vm_compute. reflexivity. Qed." for k in cids]
-    path2 = f"{COQ}/Cases_{rep.pid}.v"; open(path2, "w").write("\n".join(lem) + "\n")
-    ok2, out2, dt2 = coqc_file(os.path.basename(path2), timeout=3000)
-    rep.notes["obligation_files"] = [path2]; rep.notes["obligation_seconds"] = round(dt + dt2, 1)
-    if not ok2: rep.oblige("instance-lemmas-compile", False, out2[-500:])
-    for f in (path, path2):
-        for ext in (".vo", ".vok", ".vos", ".glob"):
-            try: os.remove(f[:-2] + ext)
-            except OSError: pass
-    return res
+        dl = [f"Definition sm{k} : dfa := {coqgen.dfa_term(run.real[k]['states'])}."]
+        if c["pattern"] is not None: e = f"ob_pat {coqgen.nat_list(c['pattern'])} sm{k}"
+        else: e = "ob_terms [" + "; ".join(f"({kk}, {coqgen.nat_list(s_)})" for kk, s_ in c["terms"]) + f"] sm{k}"
+        inst.append((k, dl, e))
+    return kernel_obligations(rep, rep.pid, coqgen.H2_HEADER, inst)
 
 def dfa_property(rep, run, kind):
     """shared by C03 (kind 'pattern') and C04 (kind 'termset')"""
